@@ -36,7 +36,7 @@ impl CodegenRule for Rule {
         let choice_body = self.definition.generate_code(&fields, grammar, &settings)?;
 
         let (types, inner_decls, parse_body) = if flags.string {
-            self.generate_string_rule(&settings)?
+            self.generate_string_rule(&fields, &settings)?
         } else if fields.len() == 1 && fields[0].name == "_override" {
             self.generate_override_rule(&fields, &settings)?
         } else {
@@ -115,12 +115,16 @@ impl Rule {
 
     fn generate_string_rule(
         &self,
+        fields: &[FieldDescriptor],
         settings: &CodegenSettings,
     ) -> Result<(TokenStream, TokenStream, TokenStream)> {
         let rule_mod = self.rule_module_ident();
         let rule_type_ident = safe_ident(&self.name);
         let check_calls = self.generate_check_calls(settings)?;
         let flags = self.flags();
+        // The fields of a @string rule are ignored, but the parsers of its body are still
+        // generated with them, so multi-type fields need their enums here too.
+        let (parsed_enum_types, inner_enum_uses) = self.generate_field_enums(fields, settings);
         let type_decl = if flags.position {
             let derives = generate_derives(settings);
             quote!(
@@ -142,8 +146,11 @@ impl Rule {
             quote!(string)
         };
         Ok((
-            type_decl,
-            quote!(),
+            quote!(
+                #type_decl
+                #parsed_enum_types
+            ),
+            inner_enum_uses,
             quote!(
                 let result =
                     #rule_mod::parse(state.clone(), global)?
@@ -242,11 +249,7 @@ impl Rule {
 
         let rule_mod = self.rule_module_ident();
         let rule_type = safe_ident(&self.name);
-        let parsed_enum_types: TokenStream = fields
-            .iter()
-            .filter(|f| f.types.len() > 1)
-            .map(|f| generate_enum_type(&format!("{}_{}", self.name, f.name), f, settings))
-            .collect();
+        let (parsed_enum_types, inner_enum_uses) = self.generate_field_enums(fields, settings);
         let parsed_struct_type = self.definition.generate_struct_type(
             fields,
             grammar,
@@ -255,15 +258,6 @@ impl Rule {
             record_position,
             PublicType::Yes,
         )?;
-        let inner_enum_uses: TokenStream = fields
-            .iter()
-            .filter(|f| f.types.len() > 1)
-            .map(|f| {
-                let outer_name = format_ident!("{}_{}", self.name, f.name);
-                let inner_name = format_ident!("Parsed_{}", f.name);
-                quote!(use super::super::#outer_name as #inner_name;)
-            })
-            .collect();
         let field_names: Vec<Ident> = fields.iter().map(|f| safe_ident(f.name)).collect();
         let field_assignments = if field_names.len() == 1 {
             quote!(#( #field_names:r, )*)
@@ -307,6 +301,30 @@ impl Rule {
             inner_enum_uses,
             rule_parser_body,
         ))
+    }
+
+    /// The enum types of the multi-type fields of this rule, and the `use` declarations that
+    /// make them available inside the rule's parser module under their internal names.
+    fn generate_field_enums(
+        &self,
+        fields: &[FieldDescriptor],
+        settings: &CodegenSettings,
+    ) -> (TokenStream, TokenStream) {
+        let parsed_enum_types: TokenStream = fields
+            .iter()
+            .filter(|f| f.types.len() > 1)
+            .map(|f| generate_enum_type(&format!("{}_{}", self.name, f.name), f, settings))
+            .collect();
+        let inner_enum_uses: TokenStream = fields
+            .iter()
+            .filter(|f| f.types.len() > 1)
+            .map(|f| {
+                let outer_name = format_ident!("{}_{}", self.name, f.name);
+                let inner_name = format_ident!("Parsed_{}", f.name);
+                quote!(use super::super::#outer_name as #inner_name;)
+            })
+            .collect();
+        (parsed_enum_types, inner_enum_uses)
     }
 
     fn generate_check_calls(&self, settings: &CodegenSettings) -> Result<TokenStream> {
